@@ -77,8 +77,8 @@ func (esp *EntityStreamParser) ParseTransaction(reader io.Reader) (*Transaction,
 		return nil, errors.New("parsing error: Unable to decode context " + err.Error())
 	}
 
-	for k, v := range context["namespaces"].(map[string]interface{}) {
-		esp.localNamespaces[k] = v.(string)
+	if err = esp.addLocalNamespaces(context); err != nil {
+		return nil, err
 	}
 
 	for {
@@ -132,6 +132,22 @@ func (esp *EntityStreamParser) ParseTransaction(reader io.Reader) (*Transaction,
 	return txn, nil
 }
 
+// addLocalNamespaces takes the prefix to expansion mappings of a context object
+func (esp *EntityStreamParser) addLocalNamespaces(context map[string]interface{}) error {
+	namespaces, ok := context["namespaces"].(map[string]interface{})
+	if !ok {
+		return errors.New("parsing error: context must contain a namespaces object")
+	}
+	for k, v := range namespaces {
+		expansion, ok := v.(string)
+		if !ok {
+			return errors.New("parsing error: namespace expansion of prefix " + k + " must be a string")
+		}
+		esp.localNamespaces[k] = expansion
+	}
+	return nil
+}
+
 func (esp *EntityStreamParser) ParseStream(reader io.Reader, emitEntity func(*Entity) error) error {
 	decoder := json.NewDecoder(reader)
 
@@ -154,8 +170,8 @@ func (esp *EntityStreamParser) ParseStream(reader io.Reader, emitEntity func(*En
 	}
 
 	if context["id"] == "@context" {
-		for k, v := range context["namespaces"].(map[string]interface{}) {
-			esp.localNamespaces[k] = v.(string)
+		if err = esp.addLocalNamespaces(context); err != nil {
+			return err
 		}
 	} else {
 		return errors.New("first entity in array must be a context")
@@ -222,11 +238,15 @@ func (esp *EntityStreamParser) parseEntity(decoder *json.Decoder) (*Entity, erro
 					return nil, errors.New("unable to read token of id value " + err2.Error())
 				}
 
-				if val.(string) == "@continuation" {
+				id, ok := val.(string)
+				if !ok {
+					return nil, errors.New("id must be a string")
+				}
+				if id == "@continuation" {
 					e.ID = "@continuation"
 					isContinuation = true
 				} else {
-					nsID, err2 := esp.store.GetNamespacedIdentifier(val.(string), esp.localNamespaces)
+					nsID, err2 := esp.store.GetNamespacedIdentifier(id, esp.localNamespaces)
 					if err2 != nil {
 						return nil, err2
 					}
@@ -237,14 +257,22 @@ func (esp *EntityStreamParser) parseEntity(decoder *json.Decoder) (*Entity, erro
 				if err2 != nil {
 					return nil, errors.New("unable to read token of recorded value " + err2.Error())
 				}
-				e.Recorded = uint64(val.(float64))
+				recorded, ok := val.(float64)
+				if !ok {
+					return nil, errors.New("recorded must be a number")
+				}
+				e.Recorded = uint64(recorded)
 
 			case "deleted":
 				val, err2 := decoder.Token()
 				if err2 != nil {
 					return nil, errors.New("unable to read token of deleted value " + err2.Error())
 				}
-				e.IsDeleted = val.(bool)
+				deleted, ok := val.(bool)
+				if !ok {
+					return nil, errors.New("deleted must be a boolean")
+				}
+				e.IsDeleted = deleted
 
 			case "props":
 				e.Properties, err = esp.parseProperties(decoder)
